@@ -131,7 +131,12 @@ class FilterFastaCodingTx(Contract):
         st.saved = {k: SymObj('Saved12b', kind=k) for k in KINDS}
         for k in KINDS:
             I.call_method(st.dir, f'save_{k}', [st.saved[k]], {})
-        st.args = [SymObj('Namespace12b', index_dir=st.dir.fields['path'], annotation_gtf=None)]
+        # every other option of the real filterFasta parser is there with an arbitrary value: which transcripts are coding does not depend on them
+        from .lib import parser_dests, real_namespace
+        dests = parser_dests('moPepGen.cli.filter_fasta', 'add_subparser_filter_fasta')
+        known = {d: I.e.bool(f'option_{d}') for d in dests if d.startswith('keep_')}
+        known.update(index_dir=st.dir.fields['path'], annotation_gtf=None)
+        st.args = [real_namespace(dests, known)]
         self._cur = st
         return st
 
